@@ -207,3 +207,61 @@ Definition one_termination (tr : list ev) : bool :=
   | VTermination _ _ :: r => forallb (fun e => match e with VTermination _ _ => false | _ => true end) r
   | _ => false
   end.
+
+(* ------------------------------------------------------------------ *)
+(* C11 — the engine performs what the script decided (trace monitor)    *)
+(* ------------------------------------------------------------------ *)
+(* after VNextAction id typ evl (recorded when the engine asks the script), the next action
+   start of that unit must be: SKILL only if a skill was decided and no fallback happened,
+   NORMAL otherwise; the content call that follows names a primary target of the class the
+   ability's target type requires, which has not been announced dead *)
+Definition desc_of (c : config) (id : Z) : option udesc := nth_error (c_units c) (Z.to_nat (id - 1)).
+
+Definition class_ok (c : config) (src : Z) (tt : ttype) (p : Z) : bool :=
+  match desc_of c src, desc_of c p with
+  | Some ds, Some dp =>
+      match tt with
+      | TAllies => Bool.eqb (d_char dp) (d_char ds)
+      | TEnemies => negb (Bool.eqb (d_char dp) (d_char ds))
+      | TSelf => p =? src
+      | TInvalidType => false
+      end
+  | _, _ => false
+  end.
+
+Fixpoint decision_ok_from (c : config) (dead : list Z) (pending : option (Z * Z * bool)) (sp : Z)
+         (tr : list ev) : bool :=
+  match tr with
+  | [] => true
+  | e :: r =>
+      match e with
+      | VTargetDeath t _ => decision_ok_from c (t :: dead) pending sp r
+      | VSPChange _ n => decision_ok_from c dead pending n r
+      | VNextAction id typ _ => decision_ok_from c dead (Some (id, typ, false)) sp r
+      | VDefaultAction id =>
+          match pending with
+          | Some (id', typ, _) => (id =? id') && (typ =? 1) && decision_ok_from c dead (Some (id', typ, true)) sp r
+          | None => false
+          end
+      | VCall k id p =>
+          if k =? 3 then decision_ok_from c dead None sp r        (* enemy action *)
+          else if k =? 2 then                                    (* ult: target class and not dead *)
+            match desc_of c id with
+            | Some d => class_ok c id (d_tt_ult d) p && negb (zin p dead) && decision_ok_from c dead pending sp r
+            | None => false
+            end
+          else
+            match pending, desc_of c id with
+            | Some (id', typ, fb), Some d =>
+                (id =? id') &&
+                (* skill performed iff decided and not fallen back *)
+                Bool.eqb (k =? 1) ((typ =? 1) && negb fb) &&
+                class_ok c id (if k =? 1 then d_tt_skill d else d_tt_attack d) p &&
+                negb (zin p dead) &&
+                decision_ok_from c dead None sp r
+            | _, _ => false
+            end
+      | _ => decision_ok_from c dead pending sp r
+      end
+  end.
+Definition decision_ok (c : config) (tr : list ev) : bool := decision_ok_from c [] None 3 tr.
